@@ -92,4 +92,12 @@ CHECKS = {
         "technique": "round-trip + differential property-based testing (rapid) against a reference decoder, enumeration of field-type pairs",
         "assumptions": [REF_ASSUME],
     },
+    "C11": {
+        "run": "^TestC11_",
+        "level": "exploration",
+        "level_text": "For Base, BaseResp and ApplicationException: advertised length == bytes written (three write paths) == bytes consumed; written image decoded by the reference holds exactly the known fields; read(write(x)) == x with nil/empty Extra preserved; reference-built images with every permutation of the known fields, unknown fields of every type in every gap (incl. known ids under other types) and trailers must be consumed exactly and yield the expected value.",
+        "level_note": "Trusted: harness/ref encoder/decoder. Unknown fields are drawn from the typed-value generator (nesting <= 6 in the random tier).",
+        "technique": "round-trip + reference-built-image property-based testing (rapid), enumeration of field permutations x unknown field types x gaps",
+        "assumptions": [REF_ASSUME],
+    },
 }
